@@ -302,6 +302,16 @@ func genWalletFacts(repo string) (string, error) {
 		return true
 	})
 	fmt.Fprintf(&b, "def detachTxLoop : List String := %s\n", walletLeanStrList(rng))
+	// how detachUtxos picks the outputs it deletes: range expressions and every if condition
+	var drng []string
+	ast.Inspect(fd.Body, func(x ast.Node) bool {
+		if rs, ok := x.(*ast.RangeStmt); ok {
+			drng = append(drng, "range "+wu.str(rs.X))
+		}
+		return true
+	})
+	fmt.Fprintf(&b, "def detachOutputLoop : List String := %s\n", walletLeanStrList(drng))
+	fmt.Fprintf(&b, "def detachConditions : List String := %s\n", walletLeanStrList(wu.ifConds(fd.Body, func(*ast.IfStmt) bool { return true })))
 	fd, err = wu.fn("txOutToUtxos", "")
 	if err != nil {
 		return "", err
